@@ -38,10 +38,23 @@ func rulePruneConfigFalse(c *Ctx, r *Report) {
 		return
 	}
 	info := f.Info()
-	iter := firstFuncLit(f.Decl.Body)
 	walks := CallsIn(info, f.Decl.Body, P("util")+".ForEachField")
-	if iter == nil || len(walks) != 1 {
-		r.Und("ygot.PruneConfigFalse:shape", c.Pos(f.Decl.Pos()), "iterator closure or the single ForEachField call not found")
+	// the iterator: a closure in PruneConfigFalse, or a package-level function handed to the walk.
+	iterF := f
+	var iterBody *ast.BlockStmt
+	var iterParams *ast.FieldList
+	var iterNode ast.Node
+	if fl := firstFuncLit(f.Decl.Body); fl != nil {
+		iterBody, iterParams, iterNode = fl.Body, fl.Type.Params, fl
+	} else if len(walks) == 1 && len(walks[0].Args) == 5 {
+		if fn, ok := ObjOf(info, walks[0].Args[4]).(*types.Func); ok {
+			if g := c.funcOfCallee(fn); g != nil {
+				iterF, iterBody, iterParams, iterNode = g, g.Decl.Body, g.Decl.Type.Params, g.Decl
+			}
+		}
+	}
+	if iterBody == nil || len(walks) != 1 {
+		r.Und("ygot.PruneConfigFalse:shape", c.Pos(f.Decl.Pos()), "iterator (closure or function) or the single ForEachField call not found")
 		return
 	}
 	walk := walks[0]
@@ -65,88 +78,117 @@ func rulePruneConfigFalse(c *Ctx, r *Report) {
 	r.Check(errResultUsed(c, f, walk), "ygot.PruneConfigFalse:walk-errors", c.Pos(walk.Pos()), "errors of the walk are returned", "PruneConfigFalse drops the errors of the walk")
 
 	// (2) the iterator's writes.
+	iinfo := iterF.Info()
 	var niObj types.Object
-	if iter.Type.Params != nil && len(iter.Type.Params.List) > 0 && len(iter.Type.Params.List[0].Names) > 0 {
-		niObj = info.ObjectOf(iter.Type.Params.List[0].Names[0])
+	if iterParams != nil && len(iterParams.List) > 0 && len(iterParams.List[0].Names) > 0 {
+		niObj = iinfo.ObjectOf(iterParams.List[0].Names[0])
 	}
 	if niObj == nil {
-		r.Und("ygot.PruneConfigFalse$iter:param", c.Pos(iter.Pos()), "iterator's NodeInfo parameter not found")
+		r.Und("ygot.PruneConfigFalse$iter:param", c.Pos(iterNode.Pos()), "iterator's NodeInfo parameter not found")
 		return
 	}
 	isNiField := func(e ast.Expr, field string) bool {
 		sel, ok := ast.Unparen(e).(*ast.SelectorExpr)
-		return ok && sel.Sel.Name == field && ObjOf(info, sel.X) == niObj
+		return ok && sel.Sel.Name == field && ObjOf(iinfo, sel.X) == niObj
 	}
-	nSet := 0
-	var firstSet token.Pos
-	ast.Inspect(iter.Body, func(n ast.Node) bool {
+	// factsOfWrite: the conditions under which a write runs — read lexically; when the write is a
+	// tail several branches fall into, per control-flow path.
+	nSet, nSkip := 0, 0
+	ast.Inspect(iterBody, func(n ast.Node) bool {
 		call, ok := n.(*ast.CallExpr)
 		if !ok {
 			return true
 		}
-		fn := FullName(Callee(info, call))
+		fn := FullName(Callee(iinfo, call))
 		if !reflectMutators[fn] {
 			return true
 		}
 		nSet++
-		if firstSet == token.NoPos {
-			firstSet = call.Pos()
-		}
 		key := fmt.Sprintf("ygot.PruneConfigFalse$iter:write#%d", nSet)
 		recv := call.Fun.(*ast.SelectorExpr).X
 		zero := false
 		if fn == "reflect.Value.Set" && len(call.Args) == 1 {
-			if z, ok := ast.Unparen(call.Args[0]).(*ast.CallExpr); ok && IsCall(info, z, "reflect.Zero") {
+			if z, ok := ast.Unparen(call.Args[0]).(*ast.CallExpr); ok && IsCall(iinfo, z, "reflect.Zero") {
 				zero = true
 			}
 		}
-		guarded := false
-		for _, ft := range c.FactsAt(f, call, false) {
-			if ft.Kind == "cond" && !ft.Pos {
-				if cc, ok := ast.Unparen(ft.Cond).(*ast.CallExpr); ok && IsCall(info, cc, P("util")+".IsConfig") && len(cc.Args) == 1 && isNiField(cc.Args[0], "Schema") {
-					guarded = true
+		inIter := func(fs []Fact) []Fact {
+			var out []Fact
+			for _, ft := range fs {
+				if ft.Cond != nil && ft.Cond.Pos() >= iterBody.Pos() && ft.Cond.Pos() <= iterBody.End() {
+					out = append(out, ft)
 				}
+			}
+			return out
+		}
+		isConfigGuard := func(fs []Fact) bool {
+			for _, ft := range fs {
+				if ft.Kind == "cond" && !ft.Pos {
+					if cc, ok := ast.Unparen(ft.Cond).(*ast.CallExpr); ok && IsCall(iinfo, cc, P("util")+".IsConfig") && len(cc.Args) == 1 && isNiField(cc.Args[0], "Schema") {
+						return true
+					}
+				}
+			}
+			return false
+		}
+		facts := inIter(c.FactsAt(iterF, call, true))
+		guarded := isConfigGuard(facts)
+		if !guarded {
+			if holds, decided := c.EveryPath(iterF, call, func(fs []Fact) bool { return isConfigGuard(inIter(fs)) }); decided && holds {
+				guarded = true
 			}
 		}
 		r.Check(isNiField(recv, "FieldValue") && zero && guarded, key, c.Pos(call.Pos()), "zeroes ni.FieldValue, only when !IsConfig(ni.Schema)",
 			"the iterator of PruneConfigFalse writes a field without having established that its schema is config false (or writes something other than the zero value): config-true data can be changed")
+		// (3) skip reasons: every condition that keeps a field from being cleared is a documented one.
+		// A negative fact at the write is a skip condition; a positive one (`if x != nil { clear }`) is
+		// the skip condition `x == nil`.
+		for _, ft := range facts {
+			if ft.Kind != "cond" {
+				nSkip++
+				r.Bad(fmt.Sprintf("ygot.PruneConfigFalse$iter:skip#%d", nSkip), c.Pos(call.Pos()), "the iterator of PruneConfigFalse clears a field only inside a switch arm on "+types.ExprString(ft.Cond)+": not one of the documented skip reasons")
+				continue
+			}
+			cond := ft.Cond
+			if ft.Pos {
+				be, ok := ast.Unparen(cond).(*ast.BinaryExpr)
+				switch {
+				case ok && be.Op == token.NEQ:
+					cond = &ast.BinaryExpr{X: be.X, OpPos: be.OpPos, Op: token.EQL, Y: be.Y}
+				case ok && be.Op == token.EQL:
+					cond = &ast.BinaryExpr{X: be.X, OpPos: be.OpPos, Op: token.NEQ, Y: be.Y}
+				default:
+					cond = &ast.UnaryExpr{OpPos: cond.Pos(), Op: token.NOT, X: cond}
+				}
+			}
+			nSkip++
+			key := fmt.Sprintf("ygot.PruneConfigFalse$iter:skip#%d", nSkip)
+			var dis []ast.Expr
+			flattenOr(cond, &dis)
+			bad := ""
+			for _, d := range dis {
+				if !soundSkip(iinfo, d, isNiField) {
+					bad = types.ExprString(d)
+				}
+			}
+			r.Check(bad == "", key, c.Pos(ft.Cond.Pos()), "documented skip reason: "+types.ExprString(cond),
+				"the iterator of PruneConfigFalse skips a field when `"+bad+"` — not one of the documented reasons (nil/invalid/zero field value, config-true schema, compressed-leaf annotation, root): config-false data satisfying it survives")
+		}
 		return true
 	})
 	if nSet == 0 {
-		r.Bad("ygot.PruneConfigFalse$iter:write", c.Pos(iter.Pos()), "the iterator of PruneConfigFalse no longer clears anything")
+		r.Bad("ygot.PruneConfigFalse$iter:write", c.Pos(iterNode.Pos()), "the iterator of PruneConfigFalse no longer clears anything")
 		return
 	}
-	// (3) skip reasons.
-	n := 0
-	for _, rs := range returnsOf(iter) {
-		if rs.Pos() > firstSet {
-			continue
-		}
-		// the innermost enclosing if whose body holds the return gives the skip condition.
-		pm := c.parentMap(f.File)
-		var cond ast.Expr
-		for p := pm[rs]; p != nil && p != ast.Node(iter); p = pm[p] {
-			if is, ok := p.(*ast.IfStmt); ok {
-				cond = is.Cond
-				break
+	// an unconditional return before the write would skip everything.
+	for _, rs := range returnsOf(iterBody) {
+		if _, top := c.parentMap(iterF.File)[rs].(*ast.BlockStmt); top && c.parentMap(iterF.File)[rs] == ast.Node(iterBody) {
+			last := iterBody.List[len(iterBody.List)-1]
+			if ast.Stmt(rs) != last {
+				nSkip++
+				r.Bad(fmt.Sprintf("ygot.PruneConfigFalse$iter:skip#%d", nSkip), c.Pos(rs.Pos()), "the iterator of PruneConfigFalse returns unconditionally before clearing the field")
 			}
 		}
-		n++
-		key := fmt.Sprintf("ygot.PruneConfigFalse$iter:skip#%d", n)
-		if cond == nil {
-			r.Bad(key, c.Pos(rs.Pos()), "the iterator of PruneConfigFalse returns unconditionally before clearing the field")
-			continue
-		}
-		var dis []ast.Expr
-		flattenOr(cond, &dis)
-		bad := ""
-		for _, d := range dis {
-			if !soundSkip(info, d, isNiField) {
-				bad = types.ExprString(d)
-			}
-		}
-		r.Check(bad == "", key, c.Pos(rs.Pos()), "documented skip reason: "+types.ExprString(cond),
-			"the iterator of PruneConfigFalse skips a field when `"+bad+"` — not one of the documented reasons (nil/invalid/zero field value, config-true schema, compressed-leaf annotation, root): config-false data satisfying it survives")
 	}
 	// (4) IsConfig.
 	if g := c.MustFunc(r, "util", "IsConfig"); g != nil {
